@@ -188,6 +188,15 @@ pub fn run_interp(c: &Case, bufs: &Bufs, budget: u64, trace_cap: usize) -> Inter
             let (steps1, hash1) = (hooks::count(), hooks::pc_hash());
             let pkt1 = bufs.pkt_bytes();
             let nlog1 = hlp::log_total();
+            // an execution on DIFFERENT packet bytes in between must not influence the next one
+            if let Some(p) = &bufs.pkt {
+                for x in p.as_mut().iter_mut() {
+                    *x = !*x;
+                }
+                hooks::reset(budget, false);
+                hooks::clear_trace_buffer();
+                let _ = vm.exec(bufs.pkt_raw(), bufs.mbuff_raw());
+            }
             bufs.reset(c);
             hlp::log_reset();
             hooks::reset(budget, true);
